@@ -83,7 +83,7 @@ DeadlineUs(e) == e.W * 1000 - e.W * 100
 
 \* public keys of the key seeds used by the runs, derived once (RFC 8032 key generation, Prim!EdPubFromSeed)
 SeedSeq  == SetToSeq({Trace[i].seed : i \in {j \in 1..N : Trace[j].k = "Run"}})
-SeedPubs == FoldLeft(LAMBDA acc, sd : Append(acc, BytesToBits(EdPubFromSeed(HexToBytes(sd)))), <<>>, SeedSeq)
+SeedPubs == FoldLeft(LAMBDA acc, sd : Append(acc, KeyPub(sd)), <<>>, SeedSeq)
 PubOfSeed(sd) == SeedPubs[CHOOSE i \in 1..Len(SeedSeq) : SeedSeq[i] = sd]
 
 SendEvent(e, oa, x) ==
